@@ -150,7 +150,9 @@ func ReadFile(r io.Reader) (File, []string, error) {
 		nextRecordOpCode = 0
 		nextRecordBitFlags = false
 	}
-	return f, warnings, nil
+	// the loop also ends when the tokenizer gives up on an unreadable byte, an unterminated comment
+	// or string, or a failing reader: that is not the end of the file
+	return f, warnings, tr.Err()
 }
 
 func expectAnyOfNext(tr *tokenReader, kinds ...tokenKind) error {
